@@ -26,7 +26,9 @@ MANIFEST = {
     "level_note": "Trusted: Coq kernel, extraction, OCaml/Go glue, hand transcription checked only differentially. "
                   "Only ctts and stsc have builder methods or cached state in the pinned library (stts, stsz, stss, sdtp, stco, co64 are "
                   "public slices: their state IS the table). The unexported singleSampleDescriptionID is observed through "
-                  "GetSampleDescriptionID(0). The builder theorems assume 1-based description ids (known finding C09-F5 otherwise). "
+                  "GetSampleDescriptionID(0). The builder theorems carry NO hypothesis on the description ids passed (finding C09-F5 fixed in "
+                  "cb02a8f: AddEntry refuses id 0, SetSingleSampleDescriptionID ignores it; the pinned behaviour is kept as stsc_run_pinned "
+                  "for C09_builder_stsc_zero_id_refuted). "
                   "File.CopySampleData (the 'copied sample data' clause) is modelled and proved under C08. Here it is evaluated by the search only: in-memory and lazy mode with work buffers 0/1/2/3/7/32/4096 over an mdat with position-dependent bytes, against the concatenation of the expansion's sample bytes. "
                   "GetSampleNrAtTime is proved under the extra hypothesis that only a final single sample may have zero duration "
                   "(known finding C09-F3 otherwise).",
@@ -71,8 +73,8 @@ def run(ctx):
         "from 1 with samples-per-chunk >= 1, stss strictly increasing in 1..N, sdtp length N, chunk offsets + data size < 2^64)",
         "GetSampleNrAtTime additionally: stts deltas positive except a final single zero-duration sample",
         "sample numbers 1..N, chunk numbers 1..C, intervals 1<=a<=b<=N (behaviour outside is only compared model vs code, not specified)",
-        "builder histories: every sample description id passed to AddEntry / SetSingleSampleDescriptionID is non-zero; the first "
-        "AddEntry of an empty box has firstChunk 1 (refused otherwise: box untouched); C09_builder_consistent additionally asks the "
+        "builder histories: ANY list of calls on a box DecodeStscSR returned or on an empty box (a call with description id 0 or a "
+        "first AddEntry with firstChunk != 1 is refused: box and table untouched); C09_builder_consistent additionally asks the "
         "file-level stsc table for raw_ok (no uint32 wrap) and rows_ok (samples/chunk >= 1, first chunks strictly increasing, <= C)",
     ]
     exe, model = build(ctx)
@@ -94,7 +96,8 @@ def run(ctx):
                         "+ calls; ctts rows split into 1-4 AddSampleCountsAndOffset calls (12% empty calls); stsc one AddEntry per row, 30% a "
                         "SetSingleSampleDescriptionID after a constant-id prefix whose ids were scrambled before (2/3); malformed stream: 50% "
                         "a refused call (unequal lengths / firstChunk != 1 on an empty box) in the history; plain boxes 50% literal, 50% "
-                        "decoder (sdtp also CreateSdtpBox); 2 fixed cases: the histories of C09Theorems.v",
+                        "decoder (sdtp also CreateSdtpBox); 35% of the stsc histories contain 1-2 calls with description id 0 "
+                        "(AddEntry / SetSingleSampleDescriptionID, any position); 2 fixed cases: the histories of C09Theorems.v",
         "builder_calls": sum(l.count(" bc") + l.count(" bs") for l in lines),
     }
     ctx.cov["samples"] += [l[:300] for l in lines[:2]] + [l[:300] for l in lines[-2:]]
